@@ -5,7 +5,7 @@ from common import Report, log
 
 MANIFEST = dict(
     technique='Coq proofs over ALL schedules and any number of goroutines (metrics update protocol as a small-step program regenerated from the source each run; goroutines over fresh pools; lockset discipline over the regenerated access table of every package-level variable; deadlock freedom by a rank on the mutexes over the regenerated table of Lock/RLock sites with may-held sets, sync.RWMutex writer preference modelled) + race-detector build and barrier-released rounds on the implementation',
-    text="Theorems: metrics_exact (every counter equals its initial value plus the sum of every call's adds, the largest/smallest query size are the true maximum/minimum, for every interleaving of the individual atomic operations of any number of concurrent Record* calls; proved generically for add-only locations and for the class of compare-and-swap retry loops (is_rmw_loop: a decidable abstract execution of the translated control-flow graph — any loop/break/continue/flag/helper layout, not one literal instruction list), instantiated on the programs translated from the current source of pkg/metrics and pkg/sql/monitor (metrics state found by role, same-package helpers inlined, short-circuit conditions as control flow), shape check discharged by complete evaluation); *_refuted (load-compare-store and a single swap attempt lose the extreme: concrete two-goroutine schedules); results_sequential (goroutines that share only pools of observationally fresh objects return what they return alone, any schedule); footprint_race_free (every access to package-level state that is written outside init is a pool/once/atomic/sync.Map operation or holds the variable's mutex in a mode excluding the conflicting access: lockset discipline on the access table regenerated from go/ssa). no_deadlock (lock discipline: any number of goroutines, each blocked one blocked at a Lock/RLock site of the acquisition table regenerated from go/ssa with only mutexes held that MAY be held there (a may-analysis: union at joins, through calls, deferred unlocks until return); sync.RWMutex semantics with writer preference; a rank computed as a topological order puts every acquired mutex strictly above everything that may be held, checked by complete evaluation: then whenever somebody is blocked, a blocked call can return or a lock holder is running — no state is a deadlock); *_refuted (the re-entrant read lock with a pending writer and the AB/BA inversion are deadlocks and admit no rank); when the table admits no rank the offending rows are named and goroutine mixes on the operations that reach the mutex run under a watchdog: a mix that does not finish is the replay, with the dump of the blocked goroutines. Implementation: translated programs are replayed sequentially against GetStats; barrier-released single-record rounds compare the totals with the true values after quiescence; N in {2, cores, 4*cores} goroutines run seeded mixes of tokenize/parse/format/extract/scan/lint/suggest/span/config/metrics-read under the race detector, every result compared with the sequential answer.",
+    text="Theorems: metrics_exact (every counter equals its initial value plus the sum of every call's adds, the largest/smallest query size are the true maximum/minimum, for every interleaving of the individual atomic operations of any number of concurrent Record* calls; proved generically for add-only locations and for the class of compare-and-swap retry loops (is_rmw_loop: a decidable abstract execution of the translated control-flow graph — any loop/break/continue/flag/helper layout, not one literal instruction list), instantiated on the programs translated from the current source of pkg/metrics and pkg/sql/monitor (metrics state found by role, same-package helpers inlined, short-circuit conditions as control flow), shape check discharged by complete evaluation); *_refuted (load-compare-store and a single swap attempt lose the extreme: concrete two-goroutine schedules); results_sequential (goroutines that share only pools of observationally fresh objects return what they return alone, any schedule); footprint_race_free (every access to package-level state that is written outside init is a pool/once/atomic/sync.Map operation or holds the variable's mutex in a mode excluding the conflicting access: lockset discipline on the access table regenerated from go/ssa). no_deadlock (lock discipline: any number of goroutines, each blocked one blocked at a Lock/RLock site of the acquisition table regenerated from go/ssa with only mutexes held that MAY be held there (a may-analysis: union at joins, through calls, deferred unlocks until return); sync.RWMutex semantics with writer preference; a rank computed as a topological order puts every acquired mutex strictly above everything that may be held, checked by complete evaluation: then whenever somebody is blocked, a blocked call can return or a lock holder is running — no state is a deadlock); *_refuted (the re-entrant read lock with a pending writer and the AB/BA inversion are deadlocks and admit no rank); no_lock_leak (no entry point of the library returns to its caller while a mutex it took may still be held — exit table regenerated from go/ssa, every return path unlocks or the unlock is deferred; then a goroutine outside the library holds nothing and the running lock holder of no_deadlock is inside the library; leaked_lock_blocks: a lock leaked to the caller makes every later Lock/RLock on it wait for ever); when the table admits no rank the offending rows are named and goroutine mixes on the operations that reach the mutex run under a watchdog: a mix that does not finish is the replay, with the dump of the blocked goroutines. Implementation: translated programs are replayed sequentially against GetStats; barrier-released single-record rounds compare the totals with the true values after quiescence; N in {2, cores, 4*cores} goroutines run seeded mixes of tokenize/parse/format/extract/scan/lint/suggest/span/config/metrics-read under the race detector, every result compared with the sequential answer.",
     note=common.BASE_NOTE + "sync/atomic operations are taken as sequentially consistent single steps and a critical section under the struct's mutex as one atomic step; the access table is complete for accesses reachable through package-level variables by field/index/pointer paths and direct calls (dynamic calls listed in evidence); 'no data race under the Go memory model' beyond that footprint rests on the race detector over the explored schedules, which is supporting evidence, not proof.",
     design='6/C10')
 
@@ -13,11 +13,12 @@ PROPS = ["Props.C10.C10_metrics_totals_exact", "Props.C10.C10_monitor_totals_exa
          "Props.C10.C10_max_load_compare_store_refuted", "Props.C10.C10_min_load_compare_store_refuted", "Props.C10.C10_max_single_attempt_refuted", "Props.C10.C10_stale_retry_never_returns",
          "Props.C10.C10_results_sequential", "Props.C10.C10_footprint_race_free", "Props.C10.C10_common_lock_orders",
          "Props.C10.C10_no_deadlock_by_lock_order", "Props.C10.C10_never_deadlocked", "Props.C10.C10_reentrant_read_lock_refuted",
-         "Props.C10.C10_lock_order_inversion_refuted"]
+         "Props.C10.C10_lock_order_inversion_refuted", "Props.C10.C10_no_lock_leak_outside_holds_nothing",
+         "Props.C10.C10_no_lock_leak_running_holder_is_inside", "Props.C10.C10_leaked_lock_blocks"]
 INST = ["Inst_C10.metrics_progs_ok", "Inst_C10.monitor_progs_ok", "Inst_C10.max_update_is_rmw_loop", "Inst_C10.min_update_is_rmw_loop",
-        "Inst_C10.tokenization_contributes", "Inst_C10.parse_contributes", "Inst_C10.globals_ok", "Inst_C10.lock_order_ok"]
+        "Inst_C10.tokenization_contributes", "Inst_C10.parse_contributes", "Inst_C10.globals_ok", "Inst_C10.lock_order_ok", "Inst_C10.no_lock_leak_ok"]
 # which public operations of the mix touch the state of a package (to aim the race-detector search at a broken table entry)
-PKG_OPS = {"pkg/config": ["config"], "pkg/errors": ["suggest", "parse"], "pkg/sql/ast": ["span", "parse", "extract"], "pkg/metrics": ["metrics", "tokenize", "parse"],
+PKG_OPS = {"pkg/config": ["config"], "pkg/errors": ["suggest", "parse"], "pkg/sql/ast": ["span", "span_zero", "parse", "extract"], "pkg/metrics": ["metrics", "tokenize", "parse"],
            "pkg/sql/security": ["scan"], "pkg/linter": ["lint"], "pkg/sql/tokenizer": ["tokenize"], "pkg/sql/parser": ["parse", "parse_ctx", "parse_hold", "recovery"],
            "pkg/gosqlx": ["parse", "parse_ctx", "parse_hold", "recovery", "format", "extract"], "pkg/formatter": ["format"], "pkg/sql/keywords": ["tokenize", "parse"]}
 
@@ -328,22 +329,77 @@ def wide_inputs(k=2400):
 HUNG = -999      # exit code reported by run_mix when the watchdog fired
 
 
-def run_watch(binp, req, watchdog, env=None):
-    """the conc harness under a watchdog.  When it does not finish in time it is sent SIGQUIT (the Go runtime prints the
-    stack of every goroutine with GOTRACEBACK=all and exits): returns (exit code, stdout, stderr, hung)"""
+WATCH_WINDOW = 30     # seconds without any progress of the harness, after its normal time is over, that make a hang
+WATCH_CAP = 900       # a run that is still making progress is given up after this many seconds
+WATCH_LOG = []        # (mode, seconds, verdict) of every harness run, for the evidence
+
+
+def run_watch(binp, req, watchdog, env=None, _retry=False):
+    """the conc harness under a LOAD-ROBUST watchdog.  `watchdog` is the time the request normally needs with a wide
+    margin on an idle machine; it never decides a hang by itself.  The harness prints "PROGRESS n" once a second
+    (rounds / operations completed): past `watchdog` the run is a hang only if n has not moved for WATCH_WINDOW seconds
+    (a slow machine keeps counting, a call that never returns does not); a run that still counts is given WATCH_CAP
+    seconds.  A harness that never reported progress is re-run once with 8 x the limit before a hang is reported.
+    On a hang the process gets SIGQUIT (GOTRACEBACK=all: the stacks of all goroutines) — returns (rc, stdout, stderr, hung)."""
+    import threading, time as _t
     env = dict(env or os.environ, GOTRACEBACK="all")
     p = subprocess.Popen([binp, "conc"], stdin=subprocess.PIPE, stdout=subprocess.PIPE, stderr=subprocess.PIPE, text=True, env=env)
+    out_parts, err_parts = [], []
+    st = {"val": None, "changed": _t.time(), "seen": False}
+
+    def rd_out():
+        for line in p.stdout:
+            out_parts.append(line)
+
+    def rd_err():
+        for line in p.stderr:
+            if line.startswith("PROGRESS "):
+                st["seen"] = True
+                v = line.split()[1]
+                if v != st["val"]:
+                    st["val"], st["changed"] = v, _t.time()
+                continue
+            err_parts.append(line)
+    th = [threading.Thread(target=rd_out, daemon=True), threading.Thread(target=rd_err, daemon=True)]
+    for t in th:
+        t.start()
     try:
-        out, err = p.communicate(json.dumps(req), timeout=watchdog)
-        return p.returncode, out, err, False
-    except subprocess.TimeoutExpired:
+        p.stdin.write(json.dumps(req))
+        p.stdin.close()
+    except BrokenPipeError:
+        pass
+    t0 = _t.time()
+    window = min(WATCH_WINDOW, max(5, watchdog))
+    hung, why = False, ""
+    while p.poll() is None:
+        _t.sleep(0.2)
+        now = _t.time()
+        if now - t0 <= watchdog:
+            continue
+        if now - st["changed"] > window:
+            hung, why = True, "no progress for %d s (progress counter %s)" % (int(now - st["changed"]), st["val"])
+            break
+        if now - t0 > max(WATCH_CAP, watchdog):
+            hung, why = True, "still running after %d s" % int(now - t0)
+            break
+    if hung:
         p.send_signal(signal.SIGQUIT)
         try:
-            out, err = p.communicate(timeout=60)
+            p.wait(timeout=60)
         except subprocess.TimeoutExpired:
             p.kill()
-            out, err = p.communicate()
-        return p.returncode, out, err, True
+            p.wait()
+    for t in th:
+        t.join(timeout=10)
+    out, err = "".join(out_parts), "".join(err_parts)
+    WATCH_LOG.append({"mode": req.get("mode"), "n": req.get("n"), "seconds": round(_t.time() - t0, 1), "limit_s": watchdog,
+                      "verdict": ("hang: " + why) if hung else "finished", "progress_reported": st["seen"]})
+    if hung and not st["seen"] and not _retry and watchdog * 8 <= WATCH_CAP * 2:
+        # no progress information at all (the harness died before its first report, or does not report): confirm once
+        return run_watch(binp, req, min(WATCH_CAP, watchdog * 8), env=env, _retry=True)
+    if hung:
+        err = "watchdog: " + why + "\n" + err
+    return p.returncode, out, err, hung
 
 
 def blocked_goroutines(dump, running=False):
@@ -369,7 +425,7 @@ def blocked_goroutines(dump, running=False):
     return sorted(groups.values(), key=lambda g: (not g["frames"], "utex" not in g["wait"], -g["count"], g["wait"], g["frames"]))
 
 
-def run_mix(n, k, seed, inputs, ops=None, race=True, timeout=900):
+def run_mix(n, k, seed, inputs, ops=None, race=True, timeout=300):
     req = {"mode": "mix", "n": n, "ops_per_g": k, "seed": seed, "inputs": inputs}
     if ops:
         req["ops"] = ops
@@ -434,9 +490,9 @@ def run_rounds(n, rounds, seed, values=None, timeout=None):
     rc, out, err, hung = run_watch(common.stage_harness(), req, wd)
     if hung:
         gs = blocked_goroutines(err, running=True)
-        msg = "fatal error: the barrier-released rounds did not finish within %d s (a recording call never returned); goroutines inside the library: %s" % (
-            wd, "; ".join("%d x %s at %s (%s)" % (g["count"], g["wait"], g["frames"][0], (g["funcs"] or ["?"])[0]) for g in gs if g["frames"])[:600])
-        note_hang("barrier-released concurrent recordings did not finish within %d s" % wd)
+        msg = "fatal error: the barrier-released rounds did not finish (%s, normal time limit %d s: a recording call never returned); goroutines inside the library: %s" % (
+            (err.splitlines() or ["watchdog"])[0], wd, "; ".join("%d x %s at %s (%s)" % (g["count"], g["wait"], g["frames"][0], (g["funcs"] or ["?"])[0]) for g in gs if g["frames"])[:600])
+        note_hang("barrier-released concurrent recordings did not finish (%s)" % (err.splitlines() or ["watchdog"])[0])
         return None, msg
     if rc != 0 or not out.strip():
         return None, err
@@ -465,6 +521,16 @@ def run(tier):
             common.stage_harness(race=True)
     except common.StageError as e:
         return common.stage_fail(rp, e)
+    import time as _time
+    stage_t = {"last": _time.time()}
+    stage_wall = {}
+
+    def mark(name):
+        now = _time.time()
+        stage_wall[name] = round(stage_wall.get(name, 0) + now - stage_t["last"], 1)
+        stage_t["last"] = now
+    stage_t["last"] = rp_start = getattr(rp, "t0", stage_t["last"])
+    mark("staging + Coq (tables, instance lemmas, Props)")
     kf = common.known_findings("C10")
     quick = tier == "quick"
     if not quick and ok_props:
@@ -546,6 +612,7 @@ def run(tier):
             if w:
                 base["model_witness"] = w
         rp.violation(base, "shape_" + name, no_input=not found)
+    mark("metrics programs: shape, model witness, reproduction")
     # ---- hypothesis of min_exact: recorded sizes are lengths
     callers = static.get("metrics_callers") or []
     neg = [c for c in callers if not c["nonneg"]]
@@ -557,6 +624,84 @@ def run(tier):
                       "explanation": "RecordTokenization is called with a size that is not syntactically a length: a negative size (or the 'not set' sentinel -1) makes the smallest-query metric wrong"},
                      "size_arg_" + re.sub(r"\W+", "_", c["pos"]), no_input=True)
 
+    # ---- lock discipline: the acquisition table (Lock / RLock sites with may-held sets) must admit a rank
+    rp.cov["lock_order"] = {"mutexes": {m: lt["rank"][m] for m in lt["muts"]}, "acquisition_sites": len(lt["acqs"]), "distinct_rows": len(lt["rows"]),
+                            "nested_sites": [{"mutex": a["cell"], "mode": a["mode"], "may_held": a["may_held"], "func": a["func"], "pos": a["pos"]} for a in lt["acqs"] if a["may_held"]],
+                            "sites": [{"mutex": a["cell"], "mode": a["mode"], "func": a["func"], "pos": a["pos"]} for a in lt["acqs"]],
+                            "notes": static.get("acq_notes") or []}
+    rp.obligation("lock discipline: a rank on the %d mutexes reachable from package-level state puts every one of the %d Lock/RLock sites strictly above everything that may be held there" % (len(lt["muts"]), len(lt["acqs"])),
+                  not lt["bad"], json.dumps([list(k) for k in lt["bad"]])[:300])
+    lock_hang = False
+    by_mutex = {}
+    for key in lt["bad"]:
+        # one report per mutex that is re-acquired, one per cycle of the order (named after its first mutex)
+        comp = next((c for c in lt["comps"] if key[0] in c), None)
+        by_mutex.setdefault(key[0] if (key[0] in key[2] or not comp) else comp[0], []).append(key)
+    for mutex, keys in sorted(by_mutex.items()):
+        pkgc = mutex.split(".")[0]
+        rows = [{"mutex": a["cell"], "mode": a["mode"], "may_held": a["may_held"], "func": a["func"], "pos": a["pos"], "reached_from": a.get("entries")}
+                for k in keys for a in lt["where"][k]]
+        reacq = [r for r in rows if any(h.rsplit(":", 1)[0] == r["mutex"] for h in r["may_held"])]
+        what = ("%s is locked (%s) at %s in %s while it may already be held (%s): sync mutexes are not re-entrant, and a second RLock behind a waiting Lock blocks for ever (writer preference)" % (
+                    mutex, reacq[0]["mode"], reacq[0]["pos"], reacq[0]["func"], ", ".join(reacq[0]["may_held"]))
+                if reacq else
+                "%s is locked at %s in %s while %s may be held, and the opposite order occurs too: no rank orders the mutexes %s" % (
+                    rows[0]["mutex"], rows[0]["pos"], rows[0]["func"], ", ".join(rows[0]["may_held"]), [c for c in lt["comps"] if mutex in c][:1]))
+        base = {"kind": "table-gap", "theorem": "Inst_C10.lock_order_ok (C10_no_deadlock_by_lock_order)", "mutex": mutex, "rows": rows[:8],
+                "model_witness": "Props.C10.C10_reentrant_read_lock_refuted" if reacq else "Props.C10.C10_lock_order_inversion_refuted"}
+        found = None
+        if not HANGS:
+            found, _ = hang_search(pkgc, quick)
+            evals += 1
+        if found:
+            base.update(found)
+            lock_hang = True
+            if not HANGS:
+                note_hang("goroutines hammering the operations that reach %s did not finish" % mutex)
+            bg = found["blocked_goroutines"]
+            base["explanation"] = what + " — reproduced on the implementation: %d goroutines running %s did not finish within %d s; blocked: %s" % (
+                found["n"], found["ops"] or "all operations", found["watchdog_s"],
+                "; ".join("%d x %s at %s" % (g["count"], g["wait"], g["frames"][0] if g["frames"] else "?") for g in bg[:4]))
+        else:
+            base["explanation"] = what + " — the lock-order instance lemma no longer holds for the regenerated acquisition table"
+        rp.violation(base, "lockorder_" + re.sub(r"\W+", "_", mutex), no_input=not found)
+    # ---- no lock leaked to the caller: no entry point may return while a mutex it took may still be held
+    rp.cov["lock_order"]["entry_points_with_mutex_operations"] = len(lt["exits"])
+    rp.obligation("no entry point of the library returns to its caller holding a mutex (%d entry points that touch a mutex; every return path unlocks or the unlock is deferred)" % len(lt["exits"]),
+                  not lt["leaks"], json.dumps(lt["leaks"])[:300])
+    leaks_by_mutex = {}
+    for e in lt["leaks"]:
+        for h in e["held"]:
+            leaks_by_mutex.setdefault(h.rsplit(":", 1)[0], []).append(e)
+    for mutex, es in sorted(leaks_by_mutex.items()):
+        # one report per leaked mutex: a private function that forgets to unlock leaks through every entry point that reaches it
+        pkgc = mutex.split(".")[0]
+        e = es[0]
+        rets = sorted((e.get("returns") or {}).items())
+        base = {"kind": "table-gap", "theorem": "Inst_C10.no_lock_leak_ok (C10_no_lock_leak_outside_holds_nothing)", "mutex": mutex,
+                "entry_points": [{"func": x["func"], "may_still_hold": x["held"], "returns_holding": [{"return_at": pos, "held": h} for pos, h in sorted((x.get("returns") or {}).items())][:4]} for x in es[:8]],
+                "entry_points_total": len(es), "model_witness": "Props.C10.C10_leaked_lock_blocks",
+                "acquired_at": [{"mutex": a["cell"], "mode": a["mode"], "func": a["func"], "pos": a["pos"]} for a in lt["acqs"] if a["cell"] == mutex][:8]}
+        what = "%s may return to its caller%s while %s is still held (no unlock on that path, none deferred%s): nobody can release it any more, every later Lock on it waits for ever" % (
+            e["func"], (" at " + ", ".join(p_ for p_, _ in rets[:3])) if rets else "", ", ".join(h for h in e["held"] if h.startswith(mutex)),
+            "; %d entry points in all" % len(es) if len(es) > 1 else "")
+        found = None
+        if not HANGS:
+            found, _ = hang_search(pkgc, quick)
+            evals += 1
+        if found:
+            base.update(found)
+            lock_hang = True
+            if not HANGS:
+                note_hang("goroutines hammering the operations that reach %s did not finish" % mutex)
+            bg = found["blocked_goroutines"]
+            base["explanation"] = what + " — reproduced on the implementation: %d goroutines running %s did not finish within %d s; blocked: %s" % (
+                found["n"], found["ops"] or "all operations", found["watchdog_s"],
+                "; ".join("%d x %s at %s" % (g["count"], g["wait"], g["frames"][0] if g["frames"] else "?") for g in bg[:4]))
+        else:
+            base["explanation"] = what + " — the instance lemma no longer holds for the regenerated exit table"
+        rp.violation(base, "lockleak_" + re.sub(r"\W+", "_", mutex), no_input=not found)
+    mark("lock order / lock leaks and hang searches")
     # ---- footprint table of package-level state
     bad_cells, known_cells = gen10.unprotected_pairs(gt)
     classes = {}
@@ -600,7 +745,10 @@ def run(tier):
         inputs_t = workload(random.Random(common.seed()), "quick")[:30]
         searches += 1
         for n in ((4, nc) if searches <= 4 and not HANGS else ()):
-            rc, res, races, err = run_mix(n, 300, common.seed() + n, inputs_t, ops=ops)
+            rc, res, races, err = run_mix(n, 300, common.seed() + n, inputs_t, ops=ops, timeout=120)
+            if rc == HUNG:
+                note_hang("a goroutine mix aimed at %s did not finish" % cell)
+                break
             evals += 1
             hit = [r for r in races if any(w.split(":")[0] in files for w in r["where"])]
             if hit:
@@ -624,46 +772,8 @@ def run(tier):
             base["explanation"] = ("package-level state %s is accessed without a common mutex / Once / atomic operation (%s at %s vs %s at %s): the footprint instance lemma no longer holds" % (
                 cell, "write" if a[1] else "read", wa[0]["pos"] if wa else "?", "write" if b[1] else "read", wb[0]["pos"] if wb else "?"))
         rp.violation(base, "footprint_" + re.sub(r"\W+", "_", root if len(cells_of_root) > 1 else cell), no_input=not found)
-    # ---- lock discipline: the acquisition table (Lock / RLock sites with may-held sets) must admit a rank
-    rp.cov["lock_order"] = {"mutexes": {m: lt["rank"][m] for m in lt["muts"]}, "acquisition_sites": len(lt["acqs"]), "distinct_rows": len(lt["rows"]),
-                            "nested_sites": [{"mutex": a["cell"], "mode": a["mode"], "may_held": a["may_held"], "func": a["func"], "pos": a["pos"]} for a in lt["acqs"] if a["may_held"]],
-                            "sites": [{"mutex": a["cell"], "mode": a["mode"], "func": a["func"], "pos": a["pos"]} for a in lt["acqs"]],
-                            "notes": static.get("acq_notes") or []}
-    rp.obligation("lock discipline: a rank on the %d mutexes reachable from package-level state puts every one of the %d Lock/RLock sites strictly above everything that may be held there" % (len(lt["muts"]), len(lt["acqs"])),
-                  not lt["bad"], json.dumps([list(k) for k in lt["bad"]])[:300])
-    lock_hang = False
-    by_mutex = {}
-    for key in lt["bad"]:
-        # one report per mutex that is re-acquired, one per cycle of the order (named after its first mutex)
-        comp = next((c for c in lt["comps"] if key[0] in c), None)
-        by_mutex.setdefault(key[0] if (key[0] in key[2] or not comp) else comp[0], []).append(key)
-    for mutex, keys in sorted(by_mutex.items()):
-        pkgc = mutex.split(".")[0]
-        rows = [{"mutex": a["cell"], "mode": a["mode"], "may_held": a["may_held"], "func": a["func"], "pos": a["pos"], "reached_from": a.get("entries")}
-                for k in keys for a in lt["where"][k]]
-        reacq = [r for r in rows if any(h.rsplit(":", 1)[0] == r["mutex"] for h in r["may_held"])]
-        what = ("%s is locked (%s) at %s in %s while it may already be held (%s): sync mutexes are not re-entrant, and a second RLock behind a waiting Lock blocks for ever (writer preference)" % (
-                    mutex, reacq[0]["mode"], reacq[0]["pos"], reacq[0]["func"], ", ".join(reacq[0]["may_held"]))
-                if reacq else
-                "%s is locked at %s in %s while %s may be held, and the opposite order occurs too: no rank orders the mutexes %s" % (
-                    rows[0]["mutex"], rows[0]["pos"], rows[0]["func"], ", ".join(rows[0]["may_held"]), [c for c in lt["comps"] if mutex in c][:1]))
-        base = {"kind": "table-gap", "theorem": "Inst_C10.lock_order_ok (C10_no_deadlock_by_lock_order)", "mutex": mutex, "rows": rows[:8],
-                "model_witness": "Props.C10.C10_reentrant_read_lock_refuted" if reacq else "Props.C10.C10_lock_order_inversion_refuted"}
-        found = None
-        if not HANGS:
-            found, _ = hang_search(pkgc, quick)
-            evals += 1
-        if found:
-            base.update(found)
-            lock_hang = True
-            bg = found["blocked_goroutines"]
-            base["explanation"] = what + " — reproduced on the implementation: %d goroutines running %s did not finish within %d s; blocked: %s" % (
-                found["n"], found["ops"] or "all operations", found["watchdog_s"],
-                "; ".join("%d x %s at %s" % (g["count"], g["wait"], g["frames"][0] if g["frames"] else "?") for g in bg[:4]))
-        else:
-            base["explanation"] = what + " — the lock-order instance lemma no longer holds for the regenerated acquisition table"
-        rp.violation(base, "lockorder_" + re.sub(r"\W+", "_", mutex), no_input=not found)
-    if not ok_inst and not defects and not bad_cells and not lt["bad"]:
+    mark("footprint table and aimed race searches")
+    if not ok_inst and not defects and not bad_cells and not lt["bad"] and not lt["leaks"]:
         rp.violation({"kind": "proof", "theorem": "Inst_C10", "log": logs["inst"][-3000:]}, "inst_c10", no_input=True)
     if ok_inst and not ok_props:
         rp.violation({"kind": "proof", "theorem": "Props/C10.v", "log": logs["props"][-3000:]}, "props_c10", no_input=True)
@@ -672,6 +782,7 @@ def run(tier):
     if ok_inst is not False or True:
         evals += run_seq_correspondence(rp, tabs, rng, 120 if quick else 1200)
 
+    mark("sequential correspondence (model vs GetStats)")
     # ---- fixed / known findings: witnesses
     for k in kf:
         w = k.get("witness") or {}
@@ -698,6 +809,7 @@ def run(tier):
             else:
                 rp.cov["notes"].append("stale known finding (witness passes now): " + k["key"])
 
+    mark("witnesses of fixed / known findings")
     # ---- barrier-released single-record rounds: totals after quiescence
     total_rounds = 4 * 10 ** 4 if quick else 10 ** 6
     plan = [(2, total_rounds // 2), (min(4, nc), total_rounds // 4), (max(2, nc // 2), total_rounds // 8), (nc, total_rounds // 16), (4 * nc, max(200, total_rounds // 100))]
@@ -729,6 +841,7 @@ def run(tier):
                          "totals_n%d" % n)
     rp.cov["barrier_rounds"] = rounds_samples
 
+    mark("barrier-released rounds")
     # ---- goroutine mixes under the race detector: every result = the sequential answer, no race report
     inputs = workload(rng, tier)
     k = 400 if quick else 20000
@@ -792,6 +905,9 @@ def run(tier):
         if res.get("nondeterministic_alone"):
             rp.cov["notes"].append("operations not deterministic when run alone (excluded from comparison): %s" % res["nondeterministic_alone"][:3])
     rp.cov["mixes"] = mixes
+    mark("goroutine mixes under the race detector")
+    rp.cov["stage_wall_s"] = stage_wall
+    rp.cov["harness_runs"] = WATCH_LOG[-60:]
 
     rp.cov["evaluations"] = evals + rounds_done
     rp.cov["distinct_nontrivial"] = len({i for i in inputs if len(i) > 10}) + len(rounds_samples)
